@@ -1364,6 +1364,11 @@ ares_status_t ares_send_query(ares_server_t *requested_server,
   query->conn = conn;
   conn->total_queries++;
 
+  /* The event thread computed its sleep from the deadlines known at that time.
+   * A query written to a connection that is already open changes no socket
+   * state, so nothing else would make it look at this new deadline. */
+  ares_event_thread_wake_channel(channel);
+
   /* We just successfully enqueud a query, see if we should probe downed
    * servers. */
   if (probe_downed_server) {
